@@ -283,7 +283,15 @@ pub fn run(ctx: &Ctx) -> Outcome {
     );
     run_cases(ctx, &mut out, SubSpec { name: "flatten_lockstep", cases: ctx.n(60_000, 3_000_000), exhaustive: false, max_secs: if ctx.quick() { 40. } else { 900. } }, |i, want, st| {
         let mut rng = ctx.rng("flatten_lockstep", i);
-        let path = gen_path(&mut rng);
+        let mut path = gen_path(&mut rng);
+        // now and then a curve millions of units away comes first: what it needs (a coarser tolerance out there,
+        // a different subdivision) must not carry over to the curves after it
+        if rng.chance(0.03) {
+            let far = *rng.pick(&[1e5f32, 1e6, 1e7, -3e6]);
+            let mut ops = vec![PathOp::MoveTo(Point::new(far, far)), PathOp::QuadTo(Point::new(far * 1.0001, far + far.abs() * 1e-4), Point::new(far + far.abs() * 2e-4, far)), PathOp::MoveTo(Point::new(0., 0.))];
+            ops.extend(path.ops.iter().cloned());
+            path = Path { ops, winding: path.winding };
+        }
         let tol = *rng.pick(&[1e-3f32, 0.01, 0.05, 0.1, 0.25, 1.0, 3.0, 10.0]);
         let mut co = CaseOut::default();
         co.hash = crate::prng::hash_str(&format!("{:?}{}", path, tol));
